@@ -463,7 +463,9 @@ type tcase struct {
 
 var bodies = []string{"", "hello\n", "no newline", "line1\nline2\n", "-- marker --\n", "x\n-- m --\ny\n", "-- last --", "--  --\n", "-- --\n", ">quoted?\n", "é ü\n", "\xff\xfe\n", "a\r\n", "\n", "\n\n", "-- a --\r\n", "tab\there\n", "unquote x\n",
 	// bodies that get quoted (marker line) and whose own lines already begin with '>'
-	"> reply\n> > older\n-- sig --\nbye\n", ">>-- inner --\n>>x\n-- outer --\n>-- inner --\n", ">\n-- m --\n", ">>>\n>-- m --\n-- n --\n"}
+	"> reply\n> > older\n-- sig --\nbye\n", ">>-- inner --\n>>x\n-- outer --\n>-- inner --\n", ">\n-- m --\n", ">>>\n>-- m --\n-- n --\n",
+	// bodies that get quoted and begin with an empty line, or hold empty lines next to markers
+	"\n-- m --\n", "\n\nhello\n-- m --\nworld\n", "\n>x\n-- m --\n", "a\n\n-- m --\n\n"}
 var pathSegs = []string{"a", "b", "sub", "deep", ".hidden", ".git", "c d", "é", "x.txt", "-- n --", "a--b"}
 
 func genTree(r *rand.Rand) []treeFile {
